@@ -16,6 +16,7 @@ import (
 	"time"
 
 	"github.com/XiaoMi/Gaea/models"
+	"github.com/XiaoMi/Gaea/mysql"
 	"github.com/XiaoMi/Gaea/parser"
 	"github.com/XiaoMi/Gaea/parser/ast"
 	"github.com/XiaoMi/Gaea/proxy/router"
@@ -121,8 +122,8 @@ func plCfgSpecs() []*plCfg {
 	var out []*plCfg
 	locs := [][]int{{2, 2}, {1, 3, 2}, {1, 1, 1, 1}}
 	ks := func(tp string, l int) *plCfg {
-		return &plCfg{ID: fmt.Sprintf("%s/L%d", tp, l+1), Type: tp, Layout: l, DB: "dbk", Table: "t", Key: "id", KeyT: plTInt,
-			Child: "tc", ChildKey: "pid", Glob: "g"}
+		return &plCfg{ID: fmt.Sprintf("%s/L%d", tp, l+1), Type: tp, Layout: l, DB: "dbk", Table: "ts1", Key: "id", KeyT: plTInt,
+			Child: "ts1c", ChildKey: "pid", Glob: "gs2"}
 	}
 	for l := 0; l < 3; l++ {
 		for _, tp := range []string{"hash", "mod", "range"} {
@@ -402,8 +403,14 @@ func (c *plCfg) timeClass(t time.Time) string {
 	if !c.HasIdx(p) {
 		return "out"
 	}
-	if t.Equal(c.periodStart(p)) {
+	st := c.periodStart(p)
+	switch {
+	case t.Equal(st):
 		return "start"
+	case t.Hour() == 0 && t.Minute() == 0 && t.Second() == 0:
+		return "finer" // midnight inside the period: the start of a finer period (a month, a day)
+	case t.Year() == st.Year() && t.YearDay() == st.YearDay():
+		return "fday" // first day of the period, not midnight
 	}
 	return "in"
 }
@@ -468,7 +475,17 @@ func (c *plCfg) buildUniverse() {
 			for _, t := range []time.Time{st, st.Add(time.Second), mid, nx.Add(-time.Second)} {
 				c.addTimeKey(t)
 			}
-			for _, t := range []time.Time{st, st.Add(time.Second), midDay, mid, nx.Add(-time.Second)} {
+			lits := []time.Time{st, st.Add(time.Second), st.Add(12 * time.Hour), midDay, mid, nx.Add(-time.Second)}
+			switch c.Type {
+			case "date_year":
+				// first of a month other than January, and midnight of an ordinary day
+				lits = append(lits, st.AddDate(0, 2, 0), st.AddDate(0, 2, 0).Add(time.Second), st.AddDate(0, 9, 14))
+			case "date_month":
+				lits = append(lits, st.AddDate(0, 0, 1), st.AddDate(0, 0, 1).Add(time.Second))
+			default:
+				lits = append(lits, st.Add(time.Hour))
+			}
+			for _, t := range lits {
 				for _, l := range c.timeLits(t) {
 					addLit(l)
 				}
@@ -526,6 +543,18 @@ func (c *plCfg) buildUniverse() {
 		}
 		for _, v := range []int64{0, 5, 16, 1024} {
 			addLit(plLit{SQL: "'" + strconv.FormatInt(v, 10) + "'", Class: "v", N: v})
+		}
+		// unsigned keys at and above 2^63, unquoted and quoted (BIGINT UNSIGNED columns)
+		addLit(plLit{SQL: "'9223372036854775807'", Class: "big", N: 1<<63 - 1})
+		for _, u := range []uint64{1 << 63, 1<<64 - 1} {
+			txt := strconv.FormatUint(u, 10)
+			k := plKey{V: plBigV(u), Go: u, SQL: txt, Class: "big"}
+			if idx, ok := c.Place(u); ok {
+				k.Idx = idx
+				c.Keys = append(c.Keys, k)
+			}
+			addLit(plLit{SQL: txt, Class: "big", N: 1<<63 - 1, S: txt})
+			addLit(plLit{SQL: "'" + txt + "'", Class: "big", N: 1<<63 - 1, S: txt})
 		}
 		if c.Type != "mycat_string" && c.Type != "mycat_murmur" {
 			// these rules parse the string as a number, so a leading zero is the same key
@@ -594,6 +623,8 @@ func plAllCfgIDs() []string {
 // ---------------------------------------------------------------- driving the planner
 
 type plPlanned struct {
+	Fast     bool // taken by the session's token pre-check: no parser, sent verbatim to the default slice
+	Unshard  bool // the plan is an UnshardPlan (by the pre-check or by BuildPlan itself)
 	ParseErr string
 	Err      string // BuildPlan error
 	Panic    string // BuildPlan panicked (the session layer recovers and drops the connection)
@@ -617,9 +648,112 @@ func plPlanSQLs(p Plan) map[string]map[string][]string {
 	return nil
 }
 
-// plBuild parses the text and runs the real plan.BuildPlan with session database db.
+// plSessionPreCheck mirrors proxy/server.(*SessionExecutor).preBuildUnshardPlan
+// (executor_handle.go), which decides from the tokens alone whether a statement skips the
+// parser and is sent verbatim to the default slice. The decision functions it combines
+// (CheckUnshardBase/Insert/Update, HasShardTableToken, PreCreateUnshardPlan) are the real ones
+// of this package; only the short combination is repeated here because proxy/server cannot be
+// imported from proxy/plan. Not mirrored: the comment-statement and last_insert_id() shortcuts
+// (no generated statement starts with a comment or has a 14..16 byte second token) and the
+// "no shard rules at all" branch (every layout has rules).
+func plSessionPreCheck(c *plCfg, db, sql string) (Plan, bool) {
+	rt := c.RT
+	phyDBs := plPhyDBs(c)
+	tokens := parser.Tokenize(sql)
+	if len(tokens) == 0 {
+		return nil, false
+	}
+	ruleDB := db
+	isUnshardPlan := true
+	tokenID, ok := mysql.ParseTokenMap[strings.ToLower(tokens[0])]
+	if !ok {
+		return nil, false
+	}
+	switch tokenID {
+	case mysql.TkIdSelect, mysql.TkIdDelete:
+		ruleDB, isUnshardPlan = CheckUnshardBase(tokenID, tokens, rt, db)
+	case mysql.TkIdReplace, mysql.TkIdInsert:
+		ruleDB, isUnshardPlan = CheckUnshardInsert(tokens, rt, db)
+	case mysql.TkIdUpdate:
+		ruleDB, isUnshardPlan = CheckUnshardUpdate(tokens, rt, db)
+	default:
+		return nil, false
+	}
+	if isUnshardPlan && HasShardTableToken(tokens, rt) {
+		isUnshardPlan = false
+	}
+	if isUnshardPlan {
+		if p, err := PreCreateUnshardPlan(sql, phyDBs, ruleDB); err == nil {
+			return p, true
+		}
+	}
+	return nil, false
+}
+
+// plPhyDBs is Namespace.GetPhysicalDBs() of a namespace without default_phy_dbs: identity on allowed dbs.
+func plPhyDBs(c *plCfg) map[string]string {
+	m := map[string]string{}
+	for db := range c.NS.AllowedDBS {
+		m[db] = db
+	}
+	return m
+}
+
+// plExecUnshard runs the real UnshardPlan.ExecuteIn with the namespace's default slice in the
+// request context and maps the database like SessionExecutor.ExecuteSQL (GetDefaultPhyDB).
+func plExecUnshard(c *plCfg, p Plan) (sent []plSent, rejected string) {
+	defer func() {
+		if r := recover(); r != nil {
+			sent, rejected = nil, "exec_panic"
+		}
+	}()
+	x := &plExec{}
+	ctx := util.NewRequestContext()
+	ctx.SetDefaultSlice(c.NS.DefaultSlice)
+	if _, err := p.ExecuteIn(ctx, x); err != nil {
+		return nil, "exec_error"
+	}
+	phy := plPhyDBs(c)
+	for i := range x.Sent {
+		if x.Sent[i].DB == "" {
+			continue
+		}
+		d, ok := phy[x.Sent[i].DB]
+		if !ok {
+			return nil, "invalid_db"
+		}
+		x.Sent[i].DB = d
+	}
+	return x.Sent, ""
+}
+
+// plSentMap turns a list of sent statements into the slice -> db -> sqls shape.
+func plSentMap(sent []plSent) map[string]map[string][]string {
+	m := map[string]map[string][]string{}
+	for _, s := range sent {
+		if m[s.Slice] == nil {
+			m[s.Slice] = map[string][]string{}
+		}
+		m[s.Slice][s.DB] = append(m[s.Slice][s.DB], s.SQL)
+	}
+	return m
+}
+
+// plBuild obtains the plan the way a session does (proxy/server getPlan): the token pre-check
+// first; otherwise parser.ParseSQL + the real plan.BuildPlan with session database db. For an
+// UnshardPlan, SQLs is what UnshardPlan.ExecuteIn sends (verbatim text, default slice).
 func plBuild(c *plCfg, db, sql string) (out *plPlanned) {
 	out = &plPlanned{}
+	if fp, fast := plSessionPreCheck(c, db, sql); fast {
+		out.Fast, out.Unshard, out.Plan = true, true, fp
+		sent, rej := plExecUnshard(c, fp)
+		if rej != "" {
+			out.Err = "unshard plan: " + rej
+			return
+		}
+		out.SQLs = plSentMap(sent)
+		return
+	}
 	stmt, err := parser.ParseSQL(sql)
 	if err != nil {
 		out.ParseErr = err.Error()
@@ -637,6 +771,16 @@ func plBuild(c *plCfg, db, sql string) (out *plPlanned) {
 		return
 	}
 	out.Plan = p
+	if up, ok := p.(*UnshardPlan); ok {
+		out.Unshard = true
+		sent, rej := plExecUnshard(c, up)
+		if rej != "" {
+			out.Err = "unshard plan: " + rej
+			return
+		}
+		out.SQLs = plSentMap(sent)
+		return
+	}
 	out.SQLs = plPlanSQLs(p)
 	return
 }
@@ -899,7 +1043,7 @@ func plShrinkCond(c *plCond, fails func(*plCond) bool) *plCond {
 	}
 }
 
-var plClassRank = map[string]int{"out": 0, "neg": 0, "g": 0, "o": 0, "v": 1, "start": 1, "in": 2}
+var plClassRank = map[string]int{"out": 0, "neg": 0, "g": 0, "o": 0, "v": 1, "start": 1, "in": 2, "finer": 2, "big": 2}
 
 // plLitSlots lists pointers to every literal of the tree (pre-order).
 func plLitSlots(c *plCond, out *[]*plLit) {
@@ -926,7 +1070,7 @@ func plShrinkLits(cfg *plCfg, c *plCond, fails func(*plCond) bool) *plCond {
 			if have == "o" || have == "g" {
 				continue
 			}
-			for _, cl := range []string{"out", "start", "v", "in"} {
+			for _, cl := range []string{"out", "start", "v", "in", "finer", "big"} {
 				if plClassRank[cl] >= plClassRank[have] {
 					continue
 				}
@@ -975,37 +1119,74 @@ func plShrinkCandidates(c *plCond) []*plCond {
 
 // ---------------------------------------------------------------- statement text
 
-// plSpell maps column roles to their spelling for a reference style.
-//
-//	bare  : t            , id
-//	tbl   : t            , t.id
-//	alias : t AS a       , a.id
-//	db    : dbk.t        , dbk.t.id
-//	upper : t            , ID
-func plSpell(c *plCfg, style string, tbl, key string) (ref string, cols map[string]string) {
-	q := ""
-	ref = tbl
-	switch style {
-	case "tbl":
-		q = tbl + "."
-	case "alias":
-		ref = tbl + " AS a"
-		q = "a."
-	case "db":
-		ref = c.DB + "." + tbl
-		q = c.DB + "." + tbl + "."
-	}
-	up := func(s string) string {
-		if style == "upper" {
-			return strings.ToUpper(s)
-		}
-		return s
-	}
-	cols = map[string]string{"key": q + up(key), "other": q + up("other"), "cnt": q + up("cnt")}
-	return
+// plSpelled is a table reference and the spelling of the column roles for it.
+type plSpelled struct {
+	Ref   string            // what follows FROM / UPDATE / INTO / JOIN
+	Name  string            // the table name as spelled (no schema, no alias)
+	Q     string            // column qualifier prefix ("" | "ts1." | "a." | "dbk.ts1.")
+	Alias string            // lower-case alias ("" = none)
+	Cols  map[string]string // role -> spelling
 }
 
-var plStyles = []string{"bare", "tbl", "alias", "db", "upper"}
+// plSpellX spells a table reference.
+//
+//	style: bare (ts1, id) | tbl (ts1, ts1.id) | alias (ts1 AS a, a.id) | db (dbk.ts1, dbk.ts1.id)
+//	       | dbalias (dbk.ts1 AS a, a.id) | upper (ts1, ID)
+//	deco flags: U upper-case table name, M mixed case, Q back-quoted names, C comment between the
+//	       keyword and the name, N alias without AS
+func plSpellX(c *plCfg, style, deco, tbl, key, alias string) plSpelled {
+	has := func(f string) bool { return strings.Contains(deco, f) }
+	name := tbl
+	switch {
+	case has("U"):
+		name = strings.ToUpper(tbl)
+	case has("M"):
+		name = strings.ToUpper(tbl[:1]) + tbl[1:]
+	}
+	db := c.DB
+	if has("Q") {
+		name, db = "`"+name+"`", "`"+c.DB+"`"
+	}
+	as := " AS "
+	if has("N") {
+		as = " "
+	}
+	sp := plSpelled{Name: name}
+	switch style {
+	case "tbl":
+		sp.Ref, sp.Q = name, name+"."
+	case "alias":
+		sp.Ref, sp.Q, sp.Alias = name+as+alias, alias+".", alias
+	case "db":
+		sp.Ref, sp.Q = db+"."+name, db+"."+name+"."
+	case "dbalias":
+		sp.Ref, sp.Q, sp.Alias = db+"."+name+as+alias, alias+".", alias
+	default:
+		sp.Ref = name
+	}
+	if has("C") {
+		sp.Ref = "/* c */ " + sp.Ref
+	}
+	up := func(x string) string {
+		if style == "upper" {
+			return strings.ToUpper(x)
+		}
+		return x
+	}
+	sp.Cols = map[string]string{"key": sp.Q + up(key), "other": sp.Q + up("other"), "cnt": sp.Q + up("cnt")}
+	return sp
+}
+
+// plSpell is plSpellX without decorations and with alias a.
+func plSpell(c *plCfg, style string, tbl, key string) (ref string, cols map[string]string) {
+	sp := plSpellX(c, style, "", tbl, key, "a")
+	return sp.Ref, sp.Cols
+}
+
+// plDecos are the table-name decorations drawn by the generators ("" most of the time).
+var plDecos = []string{"", "", "", "", "U", "M", "Q", "C", "UQ", "MC", "N", "CN", "UN", "QC"}
+
+var plStyles = []string{"bare", "tbl", "alias", "db", "upper", "dbalias"}
 
 // plCondOf returns WHERE and ON conditions of a parsed statement as one conjunction list.
 func plCondsOf(stmt ast.StmtNode) ([]ast.ExprNode, *plStmtParts, error) {
